@@ -4,6 +4,7 @@ Each is an inverse-pair or typing fact about code outside the repository; the ha
 them against the real stdlib on the very values in play ("stdlib law check").
 -/
 import DW.Model.Std
+import DW.Model.Dump
 
 namespace DW
 
@@ -23,6 +24,11 @@ structure StdLaws (std : Std) : Prop where
   /-- `isoformat()` output never contains the letter `Z` -/
   time_noZ : ∀ t, std.validTok .time t = true → 'Z' ∉ t
   datetime_noZ : ∀ t, std.validTok .datetime t = true → 'Z' ∉ t
+  /-- Python ≥ 3.11: `fromisoformat` reads a trailing `Z` as UTC, so the dumped text loads back unchanged -/
+  datetime_rt_z : ∀ t, std.validTok .datetime t = true → std.datetimeFromIso (isoZ t) = some t
+  time_rt_z : ∀ t, std.validTok .time t = true → std.timeFromIso (isoZ t) = some t
+  /-- `b64decode(b64encode(b)) == b` -/
+  b64_rt : ∀ b, std.b64decode (std.b64encode b) = some b
   /-- `timedelta(seconds=pytimeparse.parse(str(td))) == td` for non-negative `td` -/
   timedelta_rt : ∀ us : Int, 0 ≤ us →
     ∃ n, std.timeparse (tdStr us) = some n ∧ std.tdOfSeconds n = some us
